@@ -306,3 +306,125 @@ Proof.
     + destruct (find (fun x => v_seq x <? I) r) as [w|] eqn:F; [|reflexivity].
       rewrite TAIL; [reflexivity|]. apply find_some in F. tauto.
 Qed.
+
+(* ================= every sequence of tree operations ================= *)
+Inductive tree_op :=
+| TAppend (e : ent) | TRotate | TFlush (W s : N) | TCompact (W s : N) (evict : bool) (f : option frule)
+| TClear (s : N) | TIngest (g : N) (items : list ent) | TMaint (W : N).
+
+Definition apply_top (t : tree) (o : tree_op) : tree :=
+  match o with
+  | TAppend e => t_append t e
+  | TRotate => fst (t_rotate t)
+  | TFlush W s => fst (t_flush W s t)
+  | TCompact W s ev f => t_compact W s ev f t
+  | TClear s => t_clear s t
+  | TIngest g items => t_register_ingest g items t
+  | TMaint W => vh_maintenance W t
+  end.
+
+(* what fjall must guarantee about the parameters it passes, for a reader at instant I *)
+Definition op_ok (I : N) (o : tree_op) : Prop :=
+  match o with
+  | TAppend e => I <= es e
+  | TRotate => True
+  | TFlush W s => W <= I /\ I <= s
+  | TCompact W s _ _ => W <= I /\ I <= s
+  | TClear s => I <= s
+  | TIngest g _ => I <= g
+  | TMaint W => W <= I
+  end.
+
+Lemma ids_ok_weaken vs nm t :
+  vs <> [] -> next_mid t <= nm ->
+  (forall v, In v vs -> v_active v < nm /\ forall id, In id (v_sealed v) -> id < nm) ->
+  forall ms, ids_ok {| mems := ms; vers := vs; next_mid := nm |}.
+Proof. intros NE _ H ms. split; [exact NE|exact H]. Qed.
+
+Lemma keep_from_first_incl p (l : list version) v : In v (keep_from_first p l) -> In v l.
+Proof.
+  induction l as [|x r IH]; cbn; [auto|]. destruct (p x); cbn; [intros [->|[]]; auto|intros [->|H]; auto].
+Qed.
+
+Lemma ids_ok_maint W t : ids_ok t -> ids_ok (vh_maintenance W t).
+Proof.
+  intros [NE IDS]. unfold vh_maintenance. destruct (W =? 0); [split; assumption|].
+  destruct (vers t) as [|v0 [|v1 r]] eqn:V.
+  - split; [rewrite V; exact NE|rewrite V; exact IDS].
+  - split; [rewrite V; discriminate|rewrite V; exact IDS].
+  - destruct (existsb (fun v => v_seq v <? W) (v0 :: v1 :: r)).
+    + split; cbn [vers next_mid].
+      * apply keep_from_first_nonempty. discriminate.
+      * intros v Hv. apply IDS. apply keep_from_first_incl in Hv. exact Hv.
+    + split; [rewrite V; discriminate|rewrite V; exact IDS].
+Qed.
+
+Lemma ids_ok_push t v' : ids_ok t ->
+  v_active v' < next_mid t -> (forall id, In id (v_sealed v') -> id < next_mid t) ->
+  ids_ok {| mems := mems t; vers := v' :: vers t; next_mid := next_mid t |}.
+Proof.
+  intros [NE IDS] Ha Hs. split; cbn [vers next_mid]; [discriminate|].
+  intros v [<-|Hv]; [split; assumption|apply IDS; exact Hv].
+Qed.
+
+Lemma latest_in t : vers t <> [] -> In (latest t) (vers t).
+Proof. unfold latest. destruct (vers t); [congruence|left; reflexivity]. Qed.
+
+Lemma ids_ok_apply t o : ids_ok t -> ids_ok (apply_top t o).
+Proof.
+  intros OK. pose proof OK as [NE IDS].
+  destruct (IDS _ (latest_in t NE)) as [La Ls].
+  destruct o as [e| |W s|W s ev f|s|g items|W]; cbn [apply_top].
+  - split; assumption.
+  - unfold t_rotate. destruct (mem_of t (v_active (latest t))); [exact OK|]. cbn [fst].
+    split; cbn [vers next_mid].
+    + unfold with_latest. destruct (vers t); discriminate.
+    + intros v Hv. unfold with_latest in Hv. destruct (vers t) as [|v0 r] eqn:V; [congruence|].
+      destruct Hv as [<-|Hv]; cbn [v_active v_sealed].
+      * split; [lia|]. intros id [<-|Hid]; [lia|]. specialize (Ls id Hid). lia.
+      * destruct (IDS v) as [A S]; [right; exact Hv|]. split; [lia|]. intros id Hid. specialize (S id Hid). lia.
+  - unfold t_flush. destruct (v_sealed (latest t)); [exact OK|]. destruct (gc_stream _ _ _ _); [exact OK|]. cbn [fst].
+    apply ids_ok_maint. apply ids_ok_push; [exact OK|exact La|intros id []].
+  - unfold t_compact. destruct (v_tables (latest t)); [exact OK|].
+    apply ids_ok_maint. apply ids_ok_push; [exact OK|exact La|exact Ls].
+  - unfold t_clear. split; cbn [vers next_mid]; [discriminate|].
+    intros v [<-|Hv]; cbn [v_active v_sealed].
+    + split; [lia|intros id []].
+    + destruct (IDS v Hv) as [A S]. split; [lia|]. intros id Hid. specialize (S id Hid). lia.
+  - unfold t_register_ingest. apply ids_ok_push; [exact OK|exact La|exact Ls].
+  - apply ids_ok_maint. exact OK.
+Qed.
+
+Lemma apply_frozen t o k I : ids_ok t -> op_ok I o -> reads (apply_top t o) k I = reads t k I.
+Proof.
+  intros OK H. pose proof OK as [NE _].
+  destruct o as [e| |W s|W s ev f|s|g items|W]; cbn [apply_top op_ok] in *.
+  - apply append_frozen. exact H.
+  - apply rotate_frozen. exact OK.
+  - apply flush_frozen; tauto.
+  - apply compact_frozen; tauto.
+  - apply clear_frozen; assumption.
+  - apply ingest_register_frozen; assumption.
+  - apply maintenance_frozen; assumption.
+Qed.
+
+Theorem run_frozen ops : forall t k I, ids_ok t -> Forall (op_ok I) ops ->
+  reads (fold_left apply_top ops t) k I = reads t k I.
+Proof.
+  induction ops as [|o ops IH]; intros t k I OK F; cbn [fold_left]; [reflexivity|].
+  inversion F as [|? ? Ho Hops]; subst.
+  rewrite IH; [|apply ids_ok_apply; exact OK|exact Hops].
+  apply apply_frozen; assumption.
+Qed.
+
+Lemma ids_ok_init : ids_ok tree_init.
+Proof. split; cbn; [discriminate|]. intros v [<-|[]]. cbn. split; [lia|intros id []]. Qed.
+
+(* a live snapshot always finds its super-version: reading never fails *)
+Lemma select_some t I : vers t <> [] -> (I = 0 \/ exists v, In v (vers t) /\ v_seq v < I) -> select_version t I <> None.
+Proof.
+  intros NE H. unfold select_version. destruct (N.eqb_spec I 0); [discriminate|].
+  destruct H as [->|(v & Hin & Hv)]; [congruence|].
+  destruct (find (fun v0 => v_seq v0 <? I) (vers t)) eqn:F; [discriminate|].
+  exfalso. eapply find_none in F; [|exact Hin]. cbn in F. apply N.ltb_ge in F. lia.
+Qed.
